@@ -26,16 +26,18 @@ import (
 )
 
 type c14rtCase struct {
-	auto    bool
-	start   int  // 0 Start before the operations, 1 never started, 2 Start is one of the operations (may come after Close)
-	reader  bool // somebody reads refreshDoneCh (the DHT's rtPeerLoop) until the end of the case
-	npeers  int
-	grace   time.Duration
-	ops     []string
-	closeAt int
-	conc2   bool
-	strat   int
-	failPct int
+	auto       bool
+	start      int  // 0 Start before the operations, 1 never started, 2 Start is one of the operations (may come after Close)
+	reader     bool // somebody reads refreshDoneCh (the DHT's rtPeerLoop) until the end of the case
+	npeers     int
+	grace      time.Duration
+	ops        []string
+	closeAt    int
+	closeOp1   int // >0: Close follows the start of operation closeOp1-1 by closeDelay steps
+	closeDelay int
+	conc2      bool
+	strat      int
+	failPct    int
 }
 
 func c14rtRun(r *vfRand, c *c14rtCase, tr *zzc14.Trace) (*zzc14.Plan, string) {
@@ -99,7 +101,7 @@ func c14rtRun(r *vfRand, c *c14rtCase, tr *zzc14.Trace) (*zzc14.Plan, string) {
 		return nil, "constructor panicked"
 	}
 	tr.Ctor(err == nil)
-	plan := &zzc14.Plan{Gate: gate, UseWait: true, CloseAt: c.closeAt, Concurrent2: c.conc2, MaxSteps: 800, Idle: 5 * time.Second, MaxIdle: 30,
+	plan := &zzc14.Plan{Gate: gate, UseWait: true, CloseAt: c.closeAt, CloseOp1: c.closeOp1, CloseDelay: c.closeDelay, Concurrent2: c.conc2, MaxSteps: 800, Idle: 5 * time.Second, MaxIdle: 30,
 		Final: func() { close(stopReader); _ = h.Close() }}
 	base := zzc14.PickBy(c.strat, r.Intn)
 	plan.Pick = func(step int, pend []*zzc14.Call) int {
@@ -199,6 +201,9 @@ func c14rtGen(r *vfRand, i int) *c14rtCase {
 		c.closeAt = r.Intn(6 + 4*len(c.ops) + 2*c.npeers)
 	}
 	c.conc2 = r.Chance(30)
+	if len(c.ops) > 0 && r.Chance(55) {
+		c.closeOp1, c.closeDelay = 1+r.Intn(len(c.ops)), 1+r.Intn(4)
+	}
 	if c.start == 2 && c.closeAt >= 0 && c.closeAt < 3 {
 		c.closeAt = 3
 	}
@@ -211,7 +216,7 @@ func TestVerifC14RtRefresh(t *testing.T) {
 	zzc14.StartClock()
 	seed := vfSeed()
 	n := vfEnvInt("VERIF_N", 100)
-	only := vfOnly()
+	only := zzc14.Only(2, vfOnly())
 	cs := vfNewCases("Run_C14", 50)
 	curDesc := map[string]any{}
 	zzc14.OnHang(func(label, stacks string) {
@@ -222,12 +227,12 @@ func TestVerifC14RtRefresh(t *testing.T) {
 	root := vfNewRand(seed)
 	for i := 0; i < n; i++ {
 		r := root.Fork()
-		if only >= 0 && i != only {
+		if only != -1 && i != only {
 			continue
 		}
 		c := c14rtGen(r, i)
-		desc := map[string]any{"case": i, "seed": seed, "pkg": "rtrefresh", "comp": "rtrefresh", "auto": c.auto, "start": c.start, "reader": c.reader, "npeers": c.npeers,
-			"grace_s": c.grace.Seconds(), "ops": c.ops, "closeAt": c.closeAt, "concurrent2": c.conc2, "strategy": c.strat, "failPct": c.failPct}
+		desc := map[string]any{"case": zzc14.CaseID(2, i), "seed": seed, "pkg": "rtrefresh", "comp": "rtrefresh", "auto": c.auto, "start": c.start, "reader": c.reader, "npeers": c.npeers,
+			"grace_s": c.grace.Seconds(), "ops": c.ops, "closeAt": c.closeAt, "closeOp1": c.closeOp1, "closeDelay": c.closeDelay, "concurrent2": c.conc2, "strategy": c.strat, "failPct": c.failPct}
 		curDesc = desc
 		tr := &zzc14.Trace{}
 		var plan *zzc14.Plan
